@@ -62,6 +62,12 @@ PROPOSED = [
   "witness": {"module": "M DEFINITIONS AUTOMATIC TAGS ::= BEGIN U ::= UTF8String END",
               "type": "U", "op": "check (os eda080)", "c_output": "ok", "expect": "^ok$"},
   "matcher": "C accepts a UTF8String whose octets contain a surrogate (ED A0..BF), a lead octet F5..FD, or F4 90..BF"},
+ {"id": "F87", "property": "C08", "properties": ["C08", "C04"], "status": "known",
+  "what": "a value constraint on BOOLEAN (B ::= BOOLEAN (TRUE)) makes asn1c emit `value = (*(const long *)sptr) ? 1 : 0;` although BOOLEAN_t is an int: "
+          "the generated checker reads 8 octets from a 4-octet object (ASan: heap-buffer-overflow READ of size 8)",
+  "witness": {"module": "M DEFINITIONS AUTOMATIC TAGS ::= BEGIN B ::= BOOLEAN (TRUE) END",
+              "type": "B", "op": "check (bool t)", "expect": "^CRASH"},
+  "matcher": "asn_check_constraints on a BOOLEAN with a value constraint (not generated by the C08 generator; witness only)"},
  {"id": "F86", "property": "C08", "status": "known",
   "what": "a BMPString with any SIZE / FROM constraint is checked against the compiler's default alphabet 0..65533, so the cells FFFE and FFFF are rejected, "
           "while the unconstrained BMPString checker accepts them (the two checkers disagree on the same characters)",
